@@ -122,6 +122,7 @@ func (e *Enc) verifyFunction(fn *ssa.Function, con *Contract) {
 		label := strings.TrimSuffix(c.Label, "!")
 		g := e.evalBool(env, c)
 		e.oblige("post", name+"/post."+label, g, pos)
+		e.coverAntecedent(name+"/cover.post."+label, env, c)
 		if len(e.obls) > n {
 			e.obls[n].Env = env
 			e.obls[n].ClauseText = c.Text
